@@ -63,6 +63,7 @@ class Kernel:
         self.actor = "main"
         self.log = EventLog(self)
         self.steps = 0
+        self.deadlock = False  # every simulated pool worker is blocked
         self.max_steps = max_steps
         self.policy = policy or {"kind": "random"}
         self.stats = {
